@@ -296,17 +296,26 @@ class _URL:
         # yarl.URL(str) splits and validates the authority LAZILY: a bad host / port raises ValueError only when
         # host, raw_host or port is first read (URL.build(host=, port=) validates eagerly; build(authority=) is lazy too)
         self.lazy = how == "URL"
-        self.forced = False
+        # 0: nothing validated yet, 1: authority split and port checked (raw_host / port read), 2: host IDNA-decoded too
+        # (host read) - each step raises a ValueError (UnicodeError is one) the first time it runs on bad input
+        self.forced = 0
 
     @property
     def raw_host(self):
-        first, self.forced = not self.forced, True
-        if self.lazy and first and self._u.choose(2, "url.lazy_authority_invalid"):
+        if self.lazy and self.forced < 1 and self._u.choose(2, "url.lazy_authority_invalid"):
             raise ValueError("Port out of range 0-65535")
+        self.forced = max(self.forced, 1)
         return "host"
 
-    host = raw_host
     port = raw_host
+
+    @property
+    def host(self):
+        self.raw_host
+        if self.lazy and self.forced < 2 and self._u.choose(2, "url.lazy_idna_invalid"):
+            raise UnicodeError("Invalid character")
+        self.forced = 2
+        return "host"
 
 
 @unit("C01", "request_line", functions=[f"{MOD}:HttpRequestParser.parse_message"], also=("C10", "C02"))
@@ -412,11 +421,13 @@ def request_line(u: U):
     m = out.value
     mu = getattr(m, "url", None)
     if isinstance(mu, _URL) and mu.lazy and mu.absolute is not False:
-        u.check("C10.escape.lazy_url_forced", mu.forced,
-                "an absolute-form target is validated completely inside parse_message (yarl checks host and port only "
-                "when they are first read): otherwise the ValueError surfaces later, in the connection task, outside any "
+        u.check("C10.escape.lazy_url_forced", mu.forced >= 2,
+                "an absolute-form or authority-form target is validated completely inside parse_message (yarl splits the "
+                "authority, checks the port and IDNA-decodes the host only when port / raw_host / host are first read; "
+                "BaseRequest.__init__ reads url.host): otherwise the ValueError surfaces later, in the connection task, outside any "
                 "handler - the request is never answered and the connection is left open",
-                known=[("F5a", mu.how == "URL"), ("F5b", mu.how == "build")],
+                known=[("F5a", mu.how == "URL" and mu.forced == 0), ("F5b", mu.how == "build" and mu.forced == 0),
+                       ("F5c", mu.forced == 1)],
                 witness={"request": "GET http://a:99999/ HTTP/1.1" if mu.how == "URL" else "CONNECT a:99999 HTTP/1.1"})
     sp = z3.Re(z3.StringVal(" "))
     # the accepted request line, byte for byte (decode is the identity on the ASCII skeleton: assumed lemma U1)
